@@ -14,12 +14,12 @@ import (
 type Automaton struct {
 	G       *tlc.Graph
 	Init    int
-	IDs     []string         // index -> node id
-	Idx     map[string]int   // node id -> index
-	Classes []string         // sorted alphabet
+	IDs     []string       // index -> node id
+	Idx     map[string]int // node id -> index
+	Classes []string       // sorted alphabet
 	CIdx    map[string]int
-	Next    [][]int          // state x class -> state (-1: no edge = absorbing)
-	State   []map[string]any // parsed state per index
+	Next    [][]int            // state x class -> state (-1: no edge = absorbing)
+	State   []map[string]any   // parsed state per index
 	Out     func(s int) string // output signature used for distinguishing states
 }
 
